@@ -186,8 +186,9 @@ PROPS = {
                       "after each NextEpoch: no error, exact size, no organism of the old generation, species form a partition that the organisms agree with, ids unique and never reused (set of all ids seen in the history), ages per the stated rule.",
         "level_note": "trusted: the harness's bookkeeping of which species existed before each turnover (pointer identity) and of all species ids seen; fitness finite, non-negative, <= 1e12",
         "rule": "G-epochs scenarios, population 3-40 (120 thorough); a turnover is non-trivial when it starts with >= 2 species, can steal babies (BabiesStolen > 0 and a species older than 5) or runs the all-zero fallback; distinct by (epoch, #species, size, program, stolen, executor, #old species)",
-        "assumptions": ["mate_multipoint_avg_prob + mate_singlepoint_prob > 0 (the method is chosen with their ratio)", "random populations containing a gene-less genome are skipped (counted)"],
-        "expect_classes": {"epochs": ["species:1", "species:2-5", "species:6+", "turnover founding new species", "turnover with species extinction", "turnover where babies can be stolen", "fitness:zero", "parallel executor", "constructor:random", "constructor:read", "constructor:reread"]},
+        "assumptions": ["mate_multipoint_avg_prob + mate_singlepoint_prob > 0 (the method is chosen with their ratio)", "random populations containing a gene-less genome are skipped (counted)",
+                        "known finding (known_findings.txt): fitness x age significance above the largest float64 is excluded by construction (age significance forced to 1 for near-maximal fitness, counted) and probed by a fixed case on every run"],
+        "expect_classes": {"epochs": ["species:1", "species:2-5", "species:6+", "turnover founding new species", "turnover with species extinction", "turnover where babies can be stolen", "fitness:zero", "fitness values whose sum overflows", "parallel executor", "constructor:random", "constructor:read", "constructor:reread"]},
     },
     "C03": {
         "run": "^TestC03",
